@@ -38,6 +38,13 @@ namespace cxx11_atomic {
 }} // namespace cds::cxx11_atomic
 
 //@cond
+#if defined(KHIZMAX_LIBCDS_VERIF)
+    // verification build: instrumented atomic<T> supplied by the verification harness (-I<harness>/include)
+#   include <cds_verif/atomic.h>
+    namespace atomics = cds_verif;
+#   define CDS_CXX11_ATOMIC_BEGIN_NAMESPACE namespace cds_verif {
+#   define CDS_CXX11_ATOMIC_END_NAMESPACE }
+#else
 #if defined(CDS_USE_BOOST_ATOMIC)
     // boost atomic
 #   include <boost/version.hpp>
@@ -61,6 +68,10 @@ namespace cxx11_atomic {
     namespace atomics = std;
 #   define CDS_CXX11_ATOMIC_BEGIN_NAMESPACE namespace std {
 #   define CDS_CXX11_ATOMIC_END_NAMESPACE }
+#endif
+#endif // KHIZMAX_LIBCDS_VERIF
+#ifndef CDS_VERIF_EVENT
+#   define CDS_VERIF_EVENT( name, ptr )
 #endif
 //@endcond
 
